@@ -7,6 +7,7 @@ import (
 	"io"
 	"path/filepath"
 	"reflect"
+	"sort"
 	"strconv"
 	"strings"
 	"unicode/utf8"
@@ -505,7 +506,9 @@ func (n *ForNode) renderForLoop(w io.Writer, ctx *RenderContext, seq interface{}
 		}
 
 	case reflect.Map:
-		keys := val.MapKeys()
+		// Go randomises map iteration; visit the keys in sorted order so that the
+		// same template and context always give the same output
+		keys := sortedMapKeys(val)
 		for i, key := range keys {
 			// Set the loop variables
 			loopVars["loop"].(map[string]interface{})["index"] = i + 1
@@ -578,6 +581,47 @@ func (n *ForNode) renderForLoop(w io.Writer, ctx *RenderContext, seq interface{}
 	}
 
 	return nil
+}
+
+// sortedMapKeys returns the keys of a map in a fixed order: numbers by value,
+// everything else by its string form
+func sortedMapKeys(m reflect.Value) []reflect.Value {
+	keys := m.MapKeys()
+	numeric := func(v reflect.Value) (float64, bool) {
+		if v.Kind() == reflect.Interface && !v.IsNil() {
+			v = v.Elem()
+		}
+		switch v.Kind() {
+		case reflect.Int, reflect.Int8, reflect.Int16, reflect.Int32, reflect.Int64:
+			return float64(v.Int()), true
+		case reflect.Uint, reflect.Uint8, reflect.Uint16, reflect.Uint32, reflect.Uint64, reflect.Uintptr:
+			return float64(v.Uint()), true
+		case reflect.Float32, reflect.Float64:
+			return v.Float(), true
+		}
+		return 0, false
+	}
+	text := func(v reflect.Value) string {
+		if v.Kind() == reflect.Interface && !v.IsNil() {
+			v = v.Elem()
+		}
+		if v.Kind() == reflect.String {
+			return v.String()
+		}
+		return fmt.Sprint(v)
+	}
+	sort.SliceStable(keys, func(i, j int) bool {
+		ni, iok := numeric(keys[i])
+		nj, jok := numeric(keys[j])
+		if iok && jok {
+			return ni < nj
+		}
+		if iok != jok {
+			return iok // numbers before everything else
+		}
+		return text(keys[i]) < text(keys[j])
+	})
+	return keys
 }
 
 // BlockNode represents a block definition
